@@ -53,6 +53,11 @@ def one(ctx, rng, k):
     ctx.case((n, il0, ils, xl0, xls, tuple(sorted(skip)), mode, q), sample=desc)
     ctx.stats['mode_' + mode] += 1
     ctx.stats['holes_%s' % ('1' if len(skip) == 1 else '2+')] += 1
+    from seismic_zfp.seismicfile import SeismicFile
+    with SeismicFile.open(sgy) as sf:
+        # (known finding KF-C08-segyio-structured: segyio's own geometry inference takes some irregular files for a regular
+        #  cube or a single line; everything downstream of that is the recorded finding, also a refused conversion)
+        desc['segyio_reports_structured'] = bool(sf.structured)
     try:
         conv.segy_to_sgz(sgy, out, q, bs, header_detection=mode)
     except Exception as e:  # noqa
@@ -61,9 +66,6 @@ def one(ctx, rng, k):
     for p in spec.conformance_problems(out):
         ctx.fail('irregular file not conformant: ' + p, desc)
     src = view.segy_view(sgy)
-    from seismic_zfp.seismicfile import SeismicFile
-    with SeismicFile.open(sgy) as sf:
-        desc['segyio_reports_structured'] = bool(sf.structured)
     ctx.stats['segyio_reports_structured'] += int(desc['segyio_reports_structured'])
     try:
         verify(ctx, rng, out, src, order, n, il, xl, q, mode, desc)
